@@ -2,7 +2,7 @@
 # tools/seed_run.sh <seed-id> <property>... : applies the seeded patch to /repo, runs the quick checks, reverts.
 ID=$1; shift
 cd /repo && git status --porcelain --untracked-files=no | grep -q . && { echo "/repo not clean"; exit 2; }
-git -C /repo apply /verif/seeded/$ID/patch.diff || exit 2
+P=/verif/seeded/$ID/patch.diff; [ -f /verif/seeded/$ID/patch-head.diff ] && P=/verif/seeded/$ID/patch-head.diff; git -C /repo apply $P || exit 2
 for P in "$@"; do
   (cd /verif && bin/check $P --tier quick 2>&1 | grep -E "^VIOLATION|^KNOWN|^\[$P\]" | head -8) > /verif/seeded/$ID/check-$P.log
   cat /verif/seeded/$ID/check-$P.log
